@@ -55,6 +55,9 @@ claimed = {
  "C04": ("typestate-style protocol check of the driver: per handler the event language of its success paths (eval/stmt/block of child accessors, Converter calls) is enumerated on the SSA CFG with error exits cut, loops unrolled and nil/emptiness/phi facts tracked for feasibility, and matched against a regular specification per node kind; duplicate-slot rule over the parser's node literals; returned-template rule over both converters; dispatcher exhaustiveness",
          "Necessary structural conditions of evaluation order, multiplicity and eagerness for every node kind. What the effects print at run time is not decided.",
          "Trusts the per-node specification table (oracle: Go operand order, README caveat, Converter bracket contract).", "§3 C04"),
+ "C03": ("writer/reader agreement of the substring arithmetic: the parser's inclusive-end rewrite read from the constructed nodes (SSA) composed with affine forms parsed from each back end's substring helper template; shape of the range desugaring (same index variable / iterable values in SSA); helper arity (positional reads vs call templates); array-counter ordering in the slice-literal templates",
+         "Narrow: decides the clauses whose truth is in the code's shape (off-by-one agreement, range loop shape, helper argument positions, array naming). Aliasing, growth, copy and contents at run time are not decided.",
+         "Trusts the affine mini-parser and the template extractor.", "§3 C03"),
 }
 na_reason = {
  "C15": "value-level agreement of a TypeShell library executed by a shell with Go's strings package over all arguments; no clause of it is visible in the shape of the Go sources or of std/strings.tsh; static analysis (this task's technique family) cannot address it",
